@@ -65,7 +65,7 @@ type c08params struct {
 }
 
 func (p c08params) coq() string {
-	return fmt.Sprintf("(mkparams %s %d %d %d %d)", c08TplCoq[p.Tpl], p.N, p.K, p.A, p.B)
+	return fmt.Sprintf("(mkparams %s %d %d %s %s)", c08TplCoq[p.Tpl], p.N, p.K, coqZ(int64(p.A)), coqZ(int64(p.B)))
 }
 
 func c08subst(src string, p c08params) string {
